@@ -8,6 +8,8 @@ import sys
 import traceback
 
 sys.path.insert(0, os.path.dirname(os.path.abspath(__file__)))
+import warnings
+warnings.simplefilter("ignore")
 import vlib  # noqa: E402
 
 
